@@ -7,6 +7,7 @@ import (
 	"math/rand"
 	"net/smtp"
 	"strings"
+	"sync"
 	"text/template"
 	"time"
 
@@ -26,6 +27,10 @@ func NewSMTPMailer(server string, auth smtp.Auth) *SMTPMailer {
 	random := rand.New(rand.NewSource(time.Now().UnixNano()))
 	return &SMTPMailer{server, auth, random}
 }
+
+// boundaryMu guards the random source used to create mime boundaries,
+// mails are sent from many goroutines at once.
+var boundaryMu sync.Mutex
 
 // SMTPMailer uses smtp to actually send e-mails
 type SMTPMailer struct {
@@ -68,6 +73,10 @@ func (s SMTPMailer) Send(ctx context.Context, mail authboss.Email) error {
 func (s SMTPMailer) boundary() string {
 	const alphabet = "abcdefghijklmnopqrstuvwxyz0123456789"
 	buf := &bytes.Buffer{}
+
+	// s.rand is shared by every copy of the mailer and not goroutine safe
+	boundaryMu.Lock()
+	defer boundaryMu.Unlock()
 
 	for i := 0; i < 23; i++ {
 		buf.WriteByte(alphabet[s.rand.Int()%len(alphabet)])
